@@ -27,8 +27,16 @@ Fragments (whole project, by construction; asserted syntactically by `project_fe
                every argument is a bare name, arbitrary depth across files, distinct call records;
   * `depth1` : every callee is a leaf; arguments of every shape (attribute chains, subscripts,
                keywords, omitted defaults), instances stored in attributes / items.
-In both the pinned code is proved right (C03_tree_*, C03_depthOne_* over the combined program), so any
-deviation is a VIOLATION.  The `wild` mode mixes everything; a deviation there is attributed to a known
+  * `cycle`  : (round 3) the forest of `tree` plus recursion of every kind of callable — a function / lambda /
+               static method / initialiser calling itself, two callables of one file calling each other, longer
+               cycles — with bare NON-IDENTITY arguments; the only feature of the call graph is the cycle.  Demanded:
+               one unrolling of every cycle in the callable and in every caller (`Project.unroll`) <= results <=
+               everything derivable (`Project.closure`, a least fixpoint); `C03_tree_node_contributes`,
+               `C03_direct_recursion_unrolled_once` are the theorems behind the lower bound.
+In all three the pinned code is proved right (C03_tree_*, C03_depthOne_* over the combined program), so any
+deviation is a VIOLATION.  In every mode (round 3): signatures over all five parameter kinds, keywords spelled like
+positional-only / *args / **kwargs parameters of a callee with **kwargs, call statements in every position a call can
+sit in (`PLACEMENTS`) and under every compound statement (`NESTINGS`).  The `wild` mode mixes everything; a deviation there is attributed to a known
 finding only by its syntactic feature AND only if the Lean project model predicts the same document.
 """
 from __future__ import annotations
@@ -90,6 +98,17 @@ def spell(n):
     raise OutsideGrammar("not a name chain: " + type(n).__name__)
 
 
+def spell_any(n):
+    """README spelling of a nameable chain whatever its subscript indices are (`a.b[f(x)].c` -> `a.b[].c`)."""
+    if isinstance(n, ast.Name):
+        return n.id
+    if isinstance(n, ast.Attribute):
+        return f"{spell_any(n.value)}.{n.attr}"
+    if isinstance(n, ast.Subscript):
+        return f"{spell_any(n.value)}[]"
+    raise OutsideGrammar("not a name chain: " + type(n).__name__)
+
+
 def is_chain(n):
     while isinstance(n, (ast.Attribute, ast.Subscript)):
         n = n.value
@@ -114,13 +133,15 @@ def sig_params(sig):
 
 
 class Site:
-    __slots__ = ("callee", "args", "kwargs", "self_", "unit", "stored", "lineno")
+    __slots__ = ("callee", "args", "kwargs", "self_", "unit", "stored", "lineno", "in_index", "forward")
 
     def __init__(self, callee, args, kwargs, lineno):
         self.callee, self.args, self.kwargs, self.lineno = callee, args, kwargs, lineno
         self.self_ = None       # spelling of the expression the new instance is stored in
         self.stored = True      # False: a class instance that is not stored (no expression for `self`)
         self.unit = None        # the callable Python calls here (None: not one of the project's callables)
+        self.in_index = False   # the call sits inside a subscript index (`del p.d[f(x)]`, `q.t[f(x)]`)
+        self.forward = False    # a static method that is registered only after this caller is analysed
 
     def record(self):
         return (self.callee, tuple(([self.self_] if self.self_ is not None else []) + self.args), tuple(map(tuple, self.kwargs)))
@@ -129,8 +150,13 @@ class Site:
 class Unit:
     """One callable of the project."""
 
-    def __init__(self, mod, key, kind, sig, body, is_expr=False, lineno=0):
+    def __init__(self, mod, key, kind, sig, body, is_expr=False, lineno=0, when=(0, 0)):
         self.mod, self.key, self.kind, self.sig, self.lineno = mod, key, kind, sig, lineno
+        # `when`: the moment the file walk analyses this body = (index of the module-level statement, 0 for a
+        # function / lambda / initialiser, 1 + j for the j-th static method of its class)
+        self.when = when
+        self.has_index = False      # some access / call of the body sits inside a non-constant subscript index
+        self.captures = set()       # names bound by match patterns (strings in the AST)
         self.body, self.is_expr = body, is_expr
         self.own = {k: set() for k in KINDS}
         self.sites = []
@@ -154,6 +180,8 @@ class Project:
 
     def __init__(self, files, target_rel):
         self.files, self.target_rel = files, target_rel
+        self.forward_static = 0     # calls to a static method that is registered only after the caller's body is analysed
+        self._in_index = 0
         self.table = module_table(files)
         self.mods = {}
         for name, rel in self.table.items():
@@ -175,27 +203,30 @@ class Project:
                 raise OutsideGrammar(f"module-level name bound twice: {name}")
             m.bind[name] = what
 
-        for st in m.tree.body:
+        for si, st in enumerate(m.tree.body):
             if isinstance(st, (ast.FunctionDef, ast.AsyncFunctionDef)):
                 if st.decorator_list:
                     raise OutsideGrammar("decorated def")
-                u = Unit(m.name, st.name, "async" if isinstance(st, ast.AsyncFunctionDef) else "def", sig_of(st.args), st.body, lineno=st.lineno)
+                u = Unit(m.name, st.name, "async" if isinstance(st, ast.AsyncFunctionDef) else "def", sig_of(st.args), st.body, lineno=st.lineno,
+                         when=(si, 0))
                 m.units[st.name] = u
                 put(st.name, ("unit", u))
             elif isinstance(st, ast.ClassDef):
                 if st.bases or st.decorator_list or st.keywords:
                     raise OutsideGrammar("class with bases / decorators")
                 put(st.name, ("class", st.name, st.lineno))
+                n_static = 0
                 for c in st.body:
                     if isinstance(c, ast.FunctionDef) and c.name == "__init__" and not c.decorator_list:
                         if f"{st.name}" in m.units:
                             raise OutsideGrammar("two __init__")
-                        m.units[st.name] = Unit(m.name, st.name, "init", sig_of(c.args), c.body, lineno=st.lineno)
+                        m.units[st.name] = Unit(m.name, st.name, "init", sig_of(c.args), c.body, lineno=st.lineno, when=(si, 0))
                     elif isinstance(c, ast.FunctionDef) and [spell(d) for d in c.decorator_list if is_chain(d)] == ["staticmethod"]:
                         k = f"{st.name}.{c.name}"
                         if k in m.units:
                             raise OutsideGrammar("static method defined twice")
-                        m.units[k] = Unit(m.name, k, "static", sig_of(c.args), c.body, lineno=st.lineno)
+                        n_static += 1
+                        m.units[k] = Unit(m.name, k, "static", sig_of(c.args), c.body, lineno=st.lineno, when=(si, n_static))
                     elif isinstance(c, ast.Assign) and len(c.targets) == 1 and isinstance(c.targets[0], ast.Name) and isinstance(c.value, ast.Constant):
                         pass
                     elif isinstance(c, ast.Pass):
@@ -204,7 +235,7 @@ class Project:
                         raise OutsideGrammar("class body statement " + type(c).__name__)
             elif isinstance(st, ast.Assign) and len(st.targets) == 1 and isinstance(st.targets[0], ast.Name) and isinstance(st.value, ast.Lambda):
                 name = st.targets[0].id
-                u = Unit(m.name, name, "lambda", sig_of(st.value.args), st.value.body, is_expr=True, lineno=st.lineno)
+                u = Unit(m.name, name, "lambda", sig_of(st.value.args), st.value.body, is_expr=True, lineno=st.lineno, when=(si, 0))
                 m.units[name] = u
                 put(name, ("unit", u))
             elif isinstance(st, ast.ImportFrom):
@@ -247,7 +278,7 @@ class Project:
             return self.lookup(b[1], b[2], depth + 1)
         return None
 
-    def resolve_callee(self, m, u, func):
+    def resolve_callee(self, m, u, func, probe=False):
         """(spelled callee, Unit | None, via_import: bool)"""
         if not is_chain(func):
             raise OutsideGrammar("callee is not a name chain")
@@ -264,11 +295,17 @@ class Project:
         if len(parts) == 1:
             return sp, self.lookup(m.name, parts[0]), b[0] == "from"
         if b[0] == "class" and len(parts) == 2:
-            if u.lineno <= b[2]:
-                # the file walk registers `K.sm` when it reaches `class K`: a caller defined earlier in the
-                # same file does not see it (a resolution question, not this property's)
-                raise OutsideGrammar("static method of a class defined after its caller")
-            return sp, m.units.get(sp), False
+            t = m.units.get(sp)
+            if t is not None and t.kind == "static" and t.when > u.when:
+                # [interp] "... it transitively calls AND RATTR CAN RESOLVE": the file walk registers `K.sm` at the
+                # moment it analyses that method (class by class, the initialiser first, then the static methods
+                # in order), so a body analysed EARLIER does not see it ("target is a method": the known C08 row
+                # `not-inlined-though-python-resolves-it:dotted:static-method:callers-first`).  A static method is
+                # resolvable from its OWN body (t.when == u.when) and from everything analysed later.
+                if not probe:
+                    self.forward_static += 1
+                return sp, None, False
+            return sp, t, False
         if b[0] == "module":
             mod = self.mods.get(b[1])
             if mod is None:
@@ -285,6 +322,15 @@ class Project:
 
     # ---------------------------------------------------------------- bodies
     def _walk_unit(self, m, u):
+        """Own accesses and call sites of one callable: a walker over the statement / expression language
+        the generator emits (every position a CALL can sit in: conditions, loop headers, with items,
+        comprehension iterables / conditions / elements, return / yield / yield from / await operands,
+        parameter-less lambda bodies, f-strings, assert, raise, match subjects / guards / value patterns,
+        operands of every operator, displays, arguments of other calls, subscript indices). Anything else:
+        `OutsideGrammar`.  Accesses: maximal Name / Attribute / Subscript chains by expression context; a
+        name bound by `for` / `with ... as` / a comprehension / `:=` is a set of that bare name; names bound
+        by `except ... as e` and by match captures are strings in the AST, not Name nodes (nothing)."""
+
         def site_of(call, self_=None, stored=True):
             sp, unit, _ = self.resolve_callee(m, u, call.func)
             for a in call.args:
@@ -294,6 +340,7 @@ class Project:
                 raise OutsideGrammar("** argument")
             s = Site(sp, [arg_spell(a) for a in call.args], [[k.arg, arg_spell(k.value)] for k in call.keywords], call.lineno)
             s.unit = unit
+            s.in_index = self._in_index > 0
             if unit is not None and (None in s.args or any(v is None for _, v in s.kwargs)):
                 raise OutsideGrammar("a call result as the argument of a project callable")
             if unit is not None and unit.kind == "init":
@@ -308,70 +355,253 @@ class Project:
                 return spell(a)
             if isinstance(a, ast.Constant):
                 return "@Constant"
-            if isinstance(a, (ast.Call, ast.NamedExpr, ast.Tuple)):
+            if isinstance(a, (ast.Call, ast.NamedExpr, ast.Tuple, ast.JoinedStr, ast.BinOp, ast.BoolOp, ast.Compare, ast.IfExp, ast.UnaryOp)):
                 return None                 # fine as the argument of a builtin (`print(f(x))`), nowhere else
             raise OutsideGrammar("argument shape " + type(a).__name__)
 
         def is_class_call(e):
             if not isinstance(e, ast.Call) or not is_chain(e.func):
                 return False
-            _, unit, _ = self.resolve_callee(m, u, e.func)
+            _, unit, _ = self.resolve_callee(m, u, e.func, probe=True)
             return unit is not None and unit.kind == "init"
+
+        def refuse_class_in_display(value):
+            # `t = (K(a), b)` / `x = [K(a)]` / `(w := (K(a), b))` with K a class of THIS file: rattr ends with its own
+            # fatal "class assignment must be one-to-one" (class_in_rhs looks into a Tuple / List display)
+            if isinstance(value, (ast.Tuple, ast.List)):
+                for x in value.elts:
+                    if isinstance(x, ast.Call) and isinstance(x.func, ast.Name) and m.bind.get(x.func.id, ("",))[0] == "class" \
+                            and x.func.id not in set(sig_params(u.sig)):
+                        raise OutsideGrammar("class instance inside a display on the right-hand side of an assignment")
+
+        def chain(e, kind):
+            """a maximal name chain in context `kind`; non-constant subscript indices hang below it"""
+            n = e
+            idx = []
+            while isinstance(n, (ast.Attribute, ast.Subscript)):
+                if isinstance(n, ast.Subscript) and not isinstance(n.slice, ast.Constant):
+                    idx.append(n.slice)
+                n = n.value
+            u.own[kind].add(spell_any(e))
+            for sl in idx:
+                u.has_index = True
+                self._in_index += 1
+                try:
+                    expr(sl)
+                finally:
+                    self._in_index -= 1
+
+        def target(t):
+            if isinstance(t, (ast.Tuple, ast.List)):
+                for x in t.elts:
+                    target(x)
+            elif is_chain(t):
+                chain(t, "sets")
+            else:
+                raise OutsideGrammar("binding target " + type(t).__name__)
+
+        def comprehension(gens, elts):
+            for g in gens:
+                if g.is_async:
+                    raise OutsideGrammar("async comprehension")
+                target(g.target)
+                expr(g.iter)
+                for c in g.ifs:
+                    expr(c)
+            for x in elts:
+                expr(x)
+
+        def pattern(p):
+            if isinstance(p, ast.MatchValue):
+                expr(p.value)
+            elif isinstance(p, ast.MatchSingleton):
+                pass
+            elif isinstance(p, ast.MatchSequence):
+                for x in p.patterns:
+                    pattern(x)
+            elif isinstance(p, ast.MatchMapping):
+                for k in p.keys:
+                    expr(k)
+                for x in p.patterns:
+                    pattern(x)
+                if p.rest:
+                    u.captures.add(p.rest)
+            elif isinstance(p, ast.MatchClass):
+                expr(p.cls)
+                for x in list(p.patterns) + list(p.kwd_patterns):
+                    pattern(x)
+            elif isinstance(p, ast.MatchStar):
+                if p.name:
+                    u.captures.add(p.name)
+            elif isinstance(p, ast.MatchAs):
+                if p.pattern is not None:
+                    pattern(p.pattern)
+                if p.name:
+                    u.captures.add(p.name)
+            elif isinstance(p, ast.MatchOr):
+                for x in p.patterns:
+                    pattern(x)
+            else:
+                raise OutsideGrammar("pattern " + type(p).__name__)
 
         def expr(e):
             if isinstance(e, ast.Constant):
                 return
-            if isinstance(e, ast.Tuple):
+            if isinstance(e, (ast.Tuple, ast.List, ast.Set)):
                 for x in e.elts:
+                    expr(x)
+                return
+            if isinstance(e, ast.Dict):
+                for k in e.keys:
+                    if k is None:
+                        raise OutsideGrammar("** in a dict display")
+                for x in list(e.keys) + list(e.values):
                     expr(x)
                 return
             if isinstance(e, ast.Call):
                 site_of(e, None, stored=False)
                 return
-            if isinstance(e, ast.NamedExpr) and isinstance(e.target, ast.Name) and is_class_call(e.value):
+            if isinstance(e, ast.NamedExpr) and isinstance(e.target, ast.Name):
+                refuse_class_in_display(e.value)
                 u.own["sets"].add(e.target.id)
-                site_of(e.value, e.target.id)
+                if is_class_call(e.value):
+                    site_of(e.value, e.target.id)
+                else:
+                    expr(e.value)
                 return
             if is_chain(e):
-                u.own["gets"].add(spell(e))
+                chain(e, "gets")
+                return
+            if isinstance(e, ast.BoolOp):
+                for x in e.values:
+                    expr(x)
+                return
+            if isinstance(e, ast.BinOp):
+                expr(e.left), expr(e.right)
+                return
+            if isinstance(e, ast.UnaryOp):
+                expr(e.operand)
+                return
+            if isinstance(e, ast.Compare):
+                expr(e.left)
+                for x in e.comparators:
+                    expr(x)
+                return
+            if isinstance(e, ast.IfExp):
+                expr(e.test), expr(e.body), expr(e.orelse)
+                return
+            if isinstance(e, ast.JoinedStr):
+                for x in e.values:
+                    expr(x)
+                return
+            if isinstance(e, ast.FormattedValue):
+                expr(e.value)
+                if e.format_spec is not None:
+                    expr(e.format_spec)
+                return
+            if isinstance(e, (ast.Await, ast.YieldFrom)):
+                expr(e.value)
+                return
+            if isinstance(e, ast.Yield):
+                if e.value is not None:
+                    expr(e.value)
+                return
+            if isinstance(e, ast.Lambda):
+                a = e.args
+                if a.posonlyargs or a.args or a.vararg or a.kwonlyargs or a.kwarg:
+                    raise OutsideGrammar("lambda with parameters inside a body")
+                expr(e.body)
+                return
+            if isinstance(e, (ast.ListComp, ast.SetComp, ast.GeneratorExp)):
+                comprehension(e.generators, [e.elt])
+                return
+            if isinstance(e, ast.DictComp):
+                comprehension(e.generators, [e.key, e.value])
                 return
             raise OutsideGrammar("expression " + type(e).__name__)
+
+        def block(ss):
+            for s in ss:
+                stmt(s)
 
         def stmt(s):
             if isinstance(s, ast.Expr):
                 expr(s.value)
             elif isinstance(s, ast.Return):
                 if s.value is not None:
-                    expr(s.value)
-            elif isinstance(s, ast.Pass):
+                    if is_class_call(s.value):
+                        site_of(s.value, None, stored=False)
+                    else:
+                        expr(s.value)
+            elif isinstance(s, (ast.Pass, ast.Break, ast.Continue)):
                 pass
             elif isinstance(s, ast.Assign):
-                if len(s.targets) != 1 or not is_chain(s.targets[0]):
+                if len(s.targets) != 1:
                     raise OutsideGrammar("assignment target")
-                t = spell(s.targets[0])
-                u.own["sets"].add(t)
-                if is_class_call(s.value):
-                    site_of(s.value, t)
+                t0 = s.targets[0]
+                refuse_class_in_display(s.value)
+                if not is_chain(t0) and is_class_call(s.value):
+                    raise OutsideGrammar("class instance unpacked into several targets (rattr: its own fatal)")
+                if is_chain(t0) and is_class_call(s.value):
+                    chain(t0, "sets")
+                    site_of(s.value, spell_any(t0))
                 else:
+                    target(t0)
                     expr(s.value)
             elif isinstance(s, (ast.AnnAssign, ast.AugAssign)):
                 if not is_chain(s.target) or s.value is None or not is_class_call(s.value):
                     raise OutsideGrammar("annotated / augmented assignment of something that is not a new instance")
-                t = spell(s.target)
-                u.own["sets"].add(t)
-                site_of(s.value, t)
+                chain(s.target, "sets")
+                site_of(s.value, spell_any(s.target))
             elif isinstance(s, ast.Delete):
-                if len(s.targets) != 1 or not is_chain(s.targets[0]) or isinstance(s.targets[0], ast.Name):
-                    raise OutsideGrammar("del target")
-                u.own["dels"].add(spell(s.targets[0]))
+                for t in s.targets:
+                    if not is_chain(t) or isinstance(t, ast.Name):
+                        raise OutsideGrammar("del target")
+                    chain(t, "dels")
+            elif isinstance(s, (ast.If, ast.While)):
+                expr(s.test)
+                block(s.body), block(s.orelse)
+            elif isinstance(s, (ast.For, ast.AsyncFor)):
+                target(s.target)
+                expr(s.iter)
+                block(s.body), block(s.orelse)
+            elif isinstance(s, (ast.With, ast.AsyncWith)):
+                for it in s.items:
+                    expr(it.context_expr)
+                    if it.optional_vars is not None:
+                        target(it.optional_vars)
+                block(s.body)
+            elif isinstance(s, ast.Try):
+                block(s.body)
+                for h in s.handlers:
+                    if h.type is not None:
+                        expr(h.type)
+                    block(h.body)
+                block(s.orelse), block(s.finalbody)
+            elif isinstance(s, ast.Assert):
+                expr(s.test)
+                if s.msg is not None:
+                    expr(s.msg)
+            elif isinstance(s, ast.Raise):
+                if s.exc is not None:
+                    expr(s.exc)
+                if s.cause is not None:
+                    expr(s.cause)
+            elif isinstance(s, ast.Match):
+                expr(s.subject)
+                for c in s.cases:
+                    pattern(c.pattern)
+                    if c.guard is not None:
+                        expr(c.guard)
+                    block(c.body)
             else:
                 raise OutsideGrammar("statement " + type(s).__name__)
 
+        self._in_index = 0
         if u.is_expr:
             expr(u.body)
         else:
-            for s in u.body:
-                stmt(s)
+            block(u.body)
 
     # ---------------------------------------------------------------- closure
     def binding(self, site):
@@ -399,6 +629,63 @@ class Project:
                             out[k].add(r[0])
         memo[key] = out
         return out
+
+    def unroll(self, root):
+        """ONE UNROLLING of every call cycle, in the callable itself and in every caller: the accesses derivable
+        along the call paths from `root` that visit no callable twice, plus — where a path closes a cycle (calls a
+        callable already on the path, the root included) — that callable's OWN accesses once more, under the
+        bindings of the whole path.  This is what "contains at least one full unrolling of every call cycle"
+        demands of `root`; on acyclic graphs it is the closure itself."""
+        memo = {}
+
+        def go(u, path, d):
+            key = (u.uid, path)
+            if key in memo:
+                return memo[key]
+            out = {k: set(u.own[k]) for k in KINDS}
+            if d <= 12:
+                for s in u.sites:
+                    if s.unit is None:
+                        continue
+                    b = self.binding(s)
+                    if b is None:
+                        continue
+                    sub = s.unit.own if s.unit.uid in path else go(s.unit, path | {s.unit.uid}, d + 1)
+                    for k in KINDS:
+                        for full in sub[k]:
+                            r = rl.subst(b, full, rl.root_var(full))
+                            if r is not None:
+                                out[k].add(r[0])
+            memo[key] = out
+            return out
+
+        return go(root, frozenset([root.uid]), 0)
+
+    def all_bare(self):
+        """every argument of every resolved call site of the project is a bare name or a constant: the set of
+        derivable names is finite and `closure` can be computed as a fixpoint"""
+        for m in self.mods.values():
+            for u in m.units.values():
+                for s in u.sites:
+                    if s.unit is None:
+                        continue
+                    allargs = ([s.self_] if (s.unit.kind == "init" and s.self_ is not None) else []) + s.args + [v for _, v in s.kwargs]
+                    if any(not (re.fullmatch(r"[A-Za-z_]\w*", a) or a.startswith("@")) for a in allargs):
+                        return False
+        return True
+
+    def closure(self, u, memo, n):
+        """everything derivable for `u` by finitely many substitutions: the least fixpoint where the arguments
+        are bare (finite universe), the unfolding to depth 2n+2 otherwise (as before)."""
+        d = 2 * n + 2
+        if not self.all_bare():
+            return self.derive(u, d, memo)
+        units = [x for m in self.mods.values() for x in m.units.values()]
+        while d < 400:
+            if all(self.derive(x, d, memo) == self.derive(x, d + 1, memo) for x in units):
+                break
+            d += 1
+        return self.derive(u, d, memo)
 
     def roots(self):
         return list(self.target.units.values())
@@ -447,14 +734,16 @@ class Project:
             full_args = ([s.self_ if s.stored else "@Instance"] if s.unit.kind == "init" else []) + s.args
             pb = rl.c04mod.python_bind(sig, {"args": full_args, "kwargs": s.kwargs})
             if pb[0] == "ok":
-                kw_keys = [k for k, _ in s.kwargs]
-                clash = [p["name"] for p in sig["posonly"]] + [x for x in (sig["vararg"], sig["kwarg"]) if x]
-                if sig["kwarg"] and any(k in clash for k in kw_keys):
-                    feats.add("c04-binding-finding")
+                # NOT a feature: a keyword spelled like a positional-only / *args / **kwargs parameter of a callee
+                # with **kwargs (`record(ev, event=x)` for `def record(event, /, **fields)`).  The pinned code
+                # DIAGNOSES such a call (the C04 row `accepted-call-diagnosed:keyword-equals-...`), but the swaps
+                # it builds are Python's binding (`C03_swaps_are_binding_inside_E1`): the closure must hold.
                 if len(full_args) < len(sig["posonly"]):
                     feats.add("c04-binding-finding")
                 if sig["kwarg"] and not pb[3]:
                     feats.add("c04-binding-finding")
+            if s.in_index or s.unit.has_index or caller.has_index:
+                feats.add("subscript-index")
             # `edges` lists a site once per PATH that reaches it from the root
             key = (caller.mod, s.record())
             recs[key] = recs.get(key, 0) + 1
@@ -463,6 +752,8 @@ class Project:
         # site along another path, or another site of that file with the same spelling — is not expanded again
         if any(n > 1 for n in recs.values()):
             feats.add("same-call-on-two-paths")
+        if root.has_index:
+            feats.add("subscript-index")
         return feats
 
     def module_roots(self, u):
@@ -474,7 +765,7 @@ class Project:
         return out
 
 
-FEATURE_PRIORITY = ["imported-class-initialiser", "compound-argument", "same-call-on-two-paths", "c04-binding-finding"]
+FEATURE_PRIORITY = ["imported-class-initialiser", "compound-argument", "same-call-on-two-paths", "c04-binding-finding", "subscript-index"]
 
 
 def judge(proj: Project, doc):
@@ -484,13 +775,14 @@ def judge(proj: Project, doc):
     n = sum(len(m.units) for m in proj.mods.values())
     for u in proj.roots():
         feats = proj.features(u)
-        want = proj.derive(u, 2 * n + 2, memo)
-        low = proj.derive(u, 1, memo)
+        want = proj.closure(u, memo, n)
+        low = proj.unroll(u)
         ent = doc.get(u.key)
         if ent is None:
             out.append((u.key, ("function-missing", "doc", sorted(doc)), feats))
             continue
         modroots = proj.module_roots(u)
+        captures = set().union(*[x.captures for m in proj.mods.values() for x in m.units.values()])
         lenient_at = "unstored-instance" in feats
         bad = None
         for k in KINDS:
@@ -498,6 +790,8 @@ def judge(proj: Project, doc):
                 r = rl.root_var(x)
                 if r in modroots:
                     return False            # the dotted spelling of a callee through a module alias
+                if r in captures:
+                    return False            # [interp] a name bound by a match pattern is a string in the AST
                 if lenient_at and r.startswith("@"):
                     return False            # [interp] an instance that is not stored has no expression
                 return True
@@ -567,11 +861,100 @@ MODULE_LAYOUTS = [
 SHARED_HELPERS = ["_normalise", "_helper", "check", "Record", "_Impl"]
 
 
+# every position a CALL can sit in (decorators aside): `{c}` the call, `{p}` a parameter of the caller, `{i}` a tag.
+# Each entry is the list of lines of one statement.
+PLACEMENTS = [
+    ["if {c}:", "    pass"],
+    ["if {p}.c{i}:", "    pass", "elif {c}:", "    {p}.e{i}"],
+    ["while {c}:", "    break"],
+    ["while {p}.w{i}:", "    break", "else:", "    {c}"],
+    ["for it{i} in {c}:", "    pass"],
+    ["for it{i} in {p}.seq{i}:", "    continue", "else:", "    {c}"],
+    ["with {c}:", "    pass"],
+    ["with {c} as w{i}:", "    pass"],
+    ["with {p}.cm{i} as w{i}, {c} as v{i}:", "    pass"],
+    ["[1 for e{i} in {p}.seq{i} if {c}]"],
+    ["[{c} for e{i} in {p}.seq{i}]"],
+    ["[1 for e{i} in {c}]"],
+    ["{{e{i}: {c} for e{i} in {p}.seq{i}}}"],
+    ["{{1 for e{i} in {p}.seq{i} if {p}.f{i} if {c}}}"],
+    ["any(1 for e{i} in {p}.seq{i} if {c})"],
+    ["return {c}"],
+    ["return ({c}, {p}.rt{i})"],
+    ["(lambda: {c})"],
+    ["(lambda: ({p}.la{i}, {c}))"],
+    ["f\"{{{c}}}\""],
+    ["print(f\"v={{{c}!r:>{{{p}.width{i}}}}}\")"],
+    ["assert {c}"],
+    ["assert {p}.ok{i}, {c}"],
+    ["raise {c}"],
+    ["raise ValueError({p}.m{i}) from {c}"],
+    ["match {c}:", "    case 1:", "        pass"],
+    ["match {p}.k{i}:", "    case 1 if {c}:", "        pass", "    case _:", "        pass"],
+    ["match {p}.k{i}:", "    case [mc{i}a, *mc{i}b] if {c}:", "        pass"],
+    ["match {p}.k{i}:", "    case {{'k': mc{i}a, **mc{i}b}} if {p}.g{i} and {c}:", "        {p}.body{i}"],
+    ["match {p}.k{i}:", "    case 1 | 2:", "        pass", "    case str() as mc{i}a if not {c}:", "        pass"],
+    ["match {p}.k{i}:", "    case {p}.CONST{i} if {p}.g{i}:", "        {c}"],
+    ["{c} and {p}.b{i}"],
+    ["{p}.b{i} or {c}"],
+    ["not {c}"],
+    ["-{c} + 1"],
+    ["{p}.x{i} < {c} <= 3"],
+    ["{c} if {p}.t{i} else 0"],
+    ["0 if {c} else {p}.t{i}"],
+    ["[{c}, {p}.li{i}]"],
+    ["{{'k': {c}}}"],
+    ["{{{c}}}"],
+    ["try:", "    {c}", "except Exception:", "    pass"],
+    ["try:", "    pass", "except Exception:", "    {c}"],
+    ["try:", "    pass", "except {c}:", "    pass"],
+    ["try:", "    pass", "except Exception:", "    pass", "else:", "    {c}"],
+    ["try:", "    pass", "finally:", "    {c}"],
+    ["r{i} = {c}"],
+    ["r{i}, s{i} = {c}, {p}.un{i}"],
+    ["{p}.st{i} = {c}"],
+    ["print({c}, {p}.pr{i})"],
+    ["print(sep={c})"],
+    ["{p}.meth{i}({c})"],
+]
+GEN_PLACEMENTS = [["yield {c}"], ["y{i} = yield {c}"], ["yield from {c}"]]
+ASYNC_PLACEMENTS = [["await {c}"], ["r{i} = await {c}"], ["async for it{i} in {c}:", "    pass"], ["async with {c} as w{i}:", "    pass"]]
+# inside a subscript index the pinned analyser visits nothing (`visit_compound_name` descends into `.value` only: the C01
+# row `missed-access:subscript-index`): the call is lost -> known finding `closure-violated:subscript-index` (wild mode only)
+INDEX_PLACEMENTS = [["del {p}.d{i}[{c}]"], ["{p}.t{i}[{c}]"], ["{p}.t{i}[{c}] = 1"], ["del {p}.d{i}[{p}.ix{i}]"]]
+LAMBDA_PLACEMENTS = ["({c} if {p}.t{i} else 0)", "[{c}]", "f\"{{{c}}}\"", "({c} and {p}.b{i})", "[1 for e{i} in {p}.seq{i} if {c}]",
+                     "(lambda: {c})", "(not {c})", "{{'k': {c}}}", "(0 if {c} else 1)"]
+# a statement under a compound statement
+NESTINGS = [
+    ["if {p}.c{i}:", "    {body}"],
+    ["if {p}.c{i}:", "    pass", "else:", "    {body}"],
+    ["for it{i} in {p}.seq{i}:", "    {body}"],
+    ["while {p}.w{i}:", "    {body}", "    break"],
+    ["with {p}.cm{i}:", "    {body}"],
+    ["with {p}.cm{i} as w{i}:", "    {body}"],
+    ["try:", "    {body}", "except Exception:", "    pass"],
+    ["try:", "    pass", "except Exception:", "    {body}"],
+    ["try:", "    pass", "finally:", "    {body}"],
+    ["match {p}.k{i}:", "    case 1:", "        {body}"],
+    ["match {p}.k{i}:", "    case 0:", "        pass", "    case _ if {p}.g{i}:", "        {body}"],
+    ["match {p}.k{i}:", "    case (mc{i}x, mc{i}y):", "        {body}"],
+]
+
+
 class ProjGen:
-    """mode: 'tree' | 'depth1' | 'wild' (see module docstring)."""
+    """mode: 'tree' | 'depth1' | 'cycle' | 'wild' (see module docstring).
+
+    Round 3, in EVERY mode: signatures over all five parameter kinds (`*args` / `**kwargs` too; a callee with
+    `**kwargs` is called with keywords spelled like its positional-only / `*args` / `**kwargs` parameters, which
+    Python puts into `**kwargs`); every call statement may sit in any position a call can sit in (`PLACEMENTS`)
+    and under any compound statement (`NESTINGS`).  `cycle`: the forest of `tree` plus recursion of every kind
+    of callable — a function / lambda / static method / initialiser calling itself, two callables of one file
+    calling each other (static <-> function, static <-> static of one class, function <-> function), longer
+    cycles — with bare, NON-IDENTITY arguments (a permutation / duplication of the caller's parameters)."""
 
     def __init__(self, rng, mode, n_modules=None):
         self.r, self.mode = rng, mode
+        self.bare = mode in ("tree", "cycle")
         self.n_mod = n_modules if n_modules is not None else rng.choice([0, 1, 2, 2, 2, 3, 3])
         self.shared_names = rng.random() < 0.3
         self.collide = self.n_mod >= 1 and rng.random() < 0.75
@@ -594,7 +977,7 @@ class ProjGen:
         names = [f"p{i}{c}" for c in "abc"[:n]]
         if self.shared_names:
             names = r.sample(["left", "right", "item", "other"], n)
-        rich = self.mode != "tree" or r.random() < 0.5
+        rich = self.mode not in ("tree", "cycle") or r.random() < 0.6
         kinds = [r.choice(["po", "ar", "ar", "ar", "ko"]) if rich else "ar" for _ in names]
         if kind == "lambda" and r.random() < 0.5:
             kinds = ["ar"] * n
@@ -608,10 +991,10 @@ class ProjGen:
         sig = {"posonly": [{"name": x, "default": dpos[j]} for j, x in enumerate(po)],
                "args": [{"name": x, "default": dpos[len(po) + j]} for j, x in enumerate(ar)],
                "vararg": None, "kwonly": [{"name": x, "default": r.random() < 0.4} for x in ko], "kwarg": None}
-        if self.mode == "wild":
-            if r.random() < 0.1:
+        if rich:
+            if r.random() < (0.1 if self.mode == "wild" else 0.15):
                 sig["vararg"] = f"va{i}"
-            if r.random() < 0.1:
+            if r.random() < (0.15 if self.mode == "wild" else 0.3):
                 sig["kwarg"] = f"kw{i}"
         return sig
 
@@ -621,7 +1004,8 @@ class ProjGen:
         n = r.randint(3, 9) + (nm - 1)
         us = []
         for i in range(n):
-            kind = r.choice(["def"] * 5 + ["async", "init", "init", "static", "lambda"])
+            kind = r.choice(["def"] * 5 + ["async", "init", "init", "static", "lambda"] if self.mode != "cycle" else
+                            ["def"] * 3 + ["async", "init", "static", "static", "static", "lambda"])
             # the target holds at least two callables; the others are spread over the followed modules
             mod = 0 if (i < 2 or nm == 1) else r.choice([0] + list(range(1, nm)) * 2)
             us.append({"i": i, "kind": kind, "mod": mod, "sig": self.signature(i, kind)})
@@ -645,8 +1029,23 @@ class ProjGen:
                 sig = chosen[0]["sig"]
                 for u in chosen:
                     u["kind"], u["name"], u["sig"], u["shared"] = kind, base, json.loads(json.dumps(sig)), True
+        # ---- classes with several members: static methods of one file share a class (with each other, with an
+        # initialiser); the file walk analyses the initialiser first, then the static methods in source order
         for u in us:
-            u["call"] = u["name"] + (".sm" if u["kind"] == "static" else "")
+            u["cls"], u["meth"] = u["name"], "sm"
+        group_p = 0.6 if self.mode == "cycle" else 0.25
+        last = {}
+        for u in us:
+            if u.get("shared") or u["kind"] not in ("static", "init"):
+                continue
+            host = last.get(u["mod"])
+            if u["kind"] == "static" and host is not None and r.random() < group_p:
+                u["cls"] = u["name"] = host["cls"]
+                u["meth"] = f"sm{u['i']}"
+            else:
+                last[u["mod"]] = u
+        for u in us:
+            u["call"] = u["name"] + ("." + u["meth"] if u["kind"] == "static" else "")
             u["params"] = sig_params(u["sig"])
         # ---- edges
         edges = {u["i2"]: [] for u in us}
@@ -656,7 +1055,7 @@ class ProjGen:
             # an imported class is not seen as a constructor call (known finding): wild mode only
             return self.mode == "wild" or not (us[b]["kind"] == "init" and us[b]["mod"] != us[a]["mod"])
 
-        if self.mode == "tree":
+        if self.mode in ("tree", "cycle"):
             # a forest over ALL files: every callable outside the target has exactly one call site (so the whole
             # project hangs under the target's functions), a target callable has one with probability 1/2; a
             # same-named helper is preferably called from its own file (each file uses its own helper)
@@ -687,6 +1086,38 @@ class ProjGen:
                 a, b = r.randrange(len(us)), r.randrange(len(us))
                 if us[max(a, b)]["mod"] == us[min(a, b)]["mod"]:
                     edges[max(a, b)].append(min(a, b))
+        if self.mode == "cycle":
+            # recursion of every kind of callable, on top of the forest.  Within one file only (imports stay acyclic).
+            kids = {a: list(edges[a]) for a in order}
+
+            def below(a):
+                out, todo = [], list(kids[a])
+                while todo:
+                    x = todo.pop()
+                    if x not in out and us[x]["mod"] == us[a]["mod"]:
+                        out.append(x)
+                        todo += kids[x]
+                return out
+
+            wide = [a for a in order if len(us[a]["params"]) >= 2] or order
+            for _ in range(r.choice([1, 2, 2, 3])):
+                form = r.choice(["self", "self", "mutual", "long", "kind"])
+                if form == "self":
+                    a = r.choice(wide)
+                    edges[a].append(a)
+                elif form == "kind":
+                    # direct recursion of a static method / initialiser / lambda if there is one
+                    cands = [a for a in order if us[a]["kind"] in ("static", "init", "lambda")]
+                    if cands:
+                        a = r.choice(cands)
+                        edges[a].append(a)
+                else:
+                    pairs = [(a, b) for a in order for b in (kids[a] if form == "mutual" else below(a))
+                             if b != a and us[a]["mod"] == us[b]["mod"]]
+                    if pairs:
+                        a, b = r.choice(pairs)
+                        edges[b].append(a)
+                        us[b]["back"] = a
         for u in us:
             u["edges"] = edges[u["i2"]]
         self.units = us
@@ -736,17 +1167,26 @@ class ProjGen:
         return {"param": p, "attr": f"{p}.n{i}", "deep": f"{p}.n{i}.o{i}", "sub": f"{p}[0]", "subattr": f"{p}[0].n{i}",
                 "attrsub": f"{p}.n{i}[1]", "const": r.choice(["1", "'s'", "None"])}[shape]
 
-    def call_to(self, u, c, spelled, uniq):
+    def call_to(self, u, c, spelled, uniq=None, nonid=False):
+        """one call of `c` from `u`; `nonid`: the arguments are not the callee's own parameters in place (a
+        recursive call that passes its parameters through unchanged unrolls to nothing new)"""
+        for _ in range(12):
+            text, pairs = self._call_to(u, c, spelled)
+            if not nonid or any(a != b for a, b in pairs) or len(u["params"]) < 2:
+                return text
+        return text
+
+    def _call_to(self, u, c, spelled):
         r = self.r
         sig, i = c["sig"], c["i"]
         pool = list(u["params"]) or ["glob"]
-        if self.mode == "tree":
+        if self.bare:
             shapes = ["param"]
         elif self.mode == "depth1":
             shapes = ["param", "param", "attr", "deep", "sub", "subattr", "attrsub"]
         else:
             shapes = ["param", "param", "param", "attr", "sub", "deep"]
-        parts = []
+        parts, pairs = [], []
         pos = sig["posonly"] + sig["args"]
         required = [p for p in pos if not p["default"]]
         lo = max(len(required), len(sig["posonly"])) if self.mode != "wild" else len(sig["posonly"])
@@ -754,65 +1194,124 @@ class ProjGen:
         if r.random() < 0.5:
             k = max(lo, min(k, len(sig["posonly"]) + r.randint(0, 1)))      # more keywords
             k = min(k, len(pos))
-        for _ in range(k):
+        for j in range(k):
             parts.append(self.arg_expr(pool, r.choice(shapes), i))
+            pairs.append((pos[j]["name"], parts[-1]))
         kws = []
         for p in sig["args"][max(0, k - len(sig["posonly"])):]:
             if not p["default"] or r.random() < 0.5:
                 kws.append(f"{p['name']}={self.arg_expr(pool, r.choice(shapes), i)}")
+                pairs.append(tuple(kws[-1].split("=", 1)))
         for p in sig["kwonly"]:
             if not p["default"] or r.random() < 0.5:
                 kws.append(f"{p['name']}={self.arg_expr(pool, r.choice(shapes), i)}")
+                pairs.append(tuple(kws[-1].split("=", 1)))
+        if sig["kwarg"]:
+            # keywords that go into **kwargs.  Python accepts a keyword spelled like a POSITIONAL-ONLY parameter that was
+            # given by position, like the *args parameter, like the **kwargs parameter itself: `record(ev, event=x)` for
+            # `def record(event, /, **fields)` binds event := ev, fields := {"event": x}
+            clash = [p["name"] for p in sig["posonly"][:k]] + [x for x in (sig["vararg"], sig["kwarg"]) if x]
+            chosen = [x for x in clash if r.random() < 0.45]
+            given = dict(pairs)
+            for name in chosen:
+                v = self.arg_expr(pool, r.choice(shapes), i)
+                for _ in range(6):
+                    if v != given.get(name):
+                        break
+                    v = self.arg_expr(pool, r.choice(shapes), i)        # not the value the parameter got by position
+                kws.append(f"{name}={v}")
+            # outside `wild`, **kwargs always receives something (nothing -> the C04 row `kwargs-parameter-receiving-nothing`)
+            if (self.mode != "wild" and not chosen) or r.random() < (0.6 if self.mode == "wild" else 0.3):
+                kws.append(f"extra{i}={self.arg_expr(pool, 'param', i)}")
         r.shuffle(kws)
-        if self.mode == "wild" and sig["kwarg"] and r.random() < 0.6:
-            kws.append(f"extra{i}={self.arg_expr(pool, 'param', i)}")
-        if self.mode == "wild" and sig["vararg"] and k >= len(pos) and r.random() < 0.5:
-            parts.append(self.arg_expr(pool, "param", i))
-        return f"{spelled}({', '.join(parts + kws)})"
+        if sig["vararg"] and k >= len(pos) and r.random() < 0.5:
+            for _ in range(r.choice([1, 1, 2])):
+                parts.append(self.arg_expr(pool, "param" if self.mode == "wild" else r.choice(shapes), i))
+        return f"{spelled}({', '.join(parts + kws)})", pairs
 
     def call_stmt(self, u, c, spelled, in_lambda=False):
         r = self.r
-        call = self.call_to(u, c, spelled, None)
+        call = self.call_to(u, c, spelled, None, nonid=(c is u or c.get("back") is not None or u.get("back") is not None))
         i = c["i"]
         pool = list(u["params"]) or ["glob"]
+        h = r.choice(pool)
         if c["kind"] == "init":
             if in_lambda:
                 return call if self.mode == "wild" else f"(x{i} := {call})"
-            if self.mode == "tree":
-                forms = ["name", "name", "ann-name", "walrus"]
+            if self.bare:
+                forms = ["name", "name", "ann-name", "walrus", "walrus-cond"]
             elif self.mode == "depth1":
-                forms = ["name", "attr", "attr", "item", "deep", "attritem", "ann-attr", "aug-attr", "walrus", "ann-name", "itemattr"]
+                forms = ["name", "attr", "attr", "item", "deep", "attritem", "ann-attr", "aug-attr", "walrus", "ann-name", "itemattr", "walrus-cond"]
             else:
-                forms = ["name", "attr", "item", "bare", "return", "print", "deep"]
+                forms = ["name", "attr", "item", "bare", "return", "print", "deep", "placed"]
             f = r.choice(forms)
-            h = r.choice(pool)
             t = {"name": f"x{i}", "attr": f"{h}.inst{i}", "item": f"{h}[0]", "deep": f"{h}.a{i}.inst{i}", "attritem": f"{h}.rows{i}[0]",
                  "itemattr": f"{h}[0].inst{i}", "ann-attr": f"{h}.inst{i}", "aug-attr": f"{h}.inst{i}", "ann-name": f"x{i}"}.get(f)
             if f in ("name", "attr", "item", "deep", "attritem", "itemattr"):
-                return [f"{t} = {call}"]
-            if f in ("ann-attr", "ann-name"):
-                return [f"{t}: object = {call}"]
-            if f == "aug-attr":
-                return [f"{t} += {call}"]
-            if f == "walrus":
-                return [f"(x{i} := {call})"]
-            if f == "bare":
-                return [call]
-            if f == "return":
-                return [f"return {call}"]
-            return [f"print({call})"]
+                out = [f"{t} = {call}"]
+            elif f in ("ann-attr", "ann-name"):
+                out = [f"{t}: object = {call}"]
+            elif f == "aug-attr":
+                out = [f"{t} += {call}"]
+            elif f == "walrus":
+                out = [f"(x{i} := {call})"]
+            elif f == "walrus-cond":
+                out = self.place(u, f"(x{i} := {call})", i, h)
+            elif f == "bare":
+                out = [call]
+            elif f == "return":
+                out = [f"return {call}"]
+            elif f == "placed":
+                out = self.place(u, call, i, h)         # an instance that is not stored, anywhere
+            else:
+                out = [f"print({call})"]
+            return self.nest(u, out, i, h)
         if in_lambda:
-            return call
-        form = r.choice(["expr", "expr", "assign", "return", "print", "tuple"])
+            return r.choice(LAMBDA_PLACEMENTS).format(c=call, p=h, i=i) if r.random() < 0.5 else call
+        form = r.choice(["expr", "assign", "return", "print", "tuple"] + ["placed"] * 6)
         if form == "expr":
-            return [call]
-        if form == "assign":
-            return [f"r{i} = {call}"]
-        if form == "return":
-            return [f"return {call}"]
-        if form == "print":
-            return [f"print({call})"]
-        return [f"t{i} = ({call}, {r.choice(pool)}.tu{i})"]
+            out = [call]
+        elif form == "assign":
+            out = [f"r{i} = {call}"]
+        elif form == "return":
+            out = [f"return {call}"]
+        elif form == "print":
+            out = [f"print({call})"]
+        elif form == "tuple":
+            out = [f"t{i} = ({call}, {h}.tu{i})"]
+        else:
+            out = self.place(u, call, i, h)
+        return self.nest(u, out, i, h)
+
+    def place(self, u, call, i, h):
+        """the call as a sub-expression, in one of the positions a call can sit in"""
+        r = self.r
+        kind = u["kind"]
+        cands = list(PLACEMENTS)
+        if kind == "async":
+            cands += ASYNC_PLACEMENTS * 3
+        elif kind in ("def", "static"):
+            cands += GEN_PLACEMENTS
+        if self.mode == "wild":
+            cands += INDEX_PLACEMENTS
+        t = r.choice(cands)
+        return [l.format(c=call, p=h, i=i) for l in t]
+
+    def nest(self, u, lines, i, h):
+        """the statement(s) under a compound statement (0-2 levels)"""
+        r = self.r
+        for _ in range(r.choice([0, 0, 0, 1, 1, 2])):
+            t = r.choice(NESTINGS)
+            out = []
+            for l in t:
+                if l == "{body}":
+                    out += lines
+                elif l.strip() == "{body}":
+                    out += ind(lines, (len(l) - len(l.lstrip())) // 4)
+                else:
+                    out.append(l.format(p=h, i=i))
+            lines = out
+        return lines
 
     def accesses(self, u, stmts=True):
         r = self.r
@@ -852,12 +1351,13 @@ class ProjGen:
         flat = [l for b in body for l in b] or ["pass"]
         if k in ("def", "async"):
             return [f"{'async ' if k == 'async' else ''}def {u['name']}({render_sig(u['sig'])}):"] + ind(flat)
+        # a member of class u["cls"]: ("class", class name, attribute lines, member lines); `project` assembles the classes
         if k == "init":
-            extra = [f"    attr{u['i']} = 1"] if r.random() < 0.4 else []
-            return [f"class {u['name']}:"] + extra + ind([f"def __init__({render_sig(u['sig'], lead=['self'])}):"] + ind(flat))
+            extra = [f"attr{u['i']} = 1"] if r.random() < 0.4 else []
+            return ("class", u["cls"], extra, [f"def __init__({render_sig(u['sig'], lead=['self'])}):"] + ind(flat))
         if k == "static":
-            extra = [f"    attr{u['i']} = 1"] if r.random() < 0.3 else []
-            return [f"class {u['name']}:"] + extra + ind(["@staticmethod", f"def sm({render_sig(u['sig'])}):"] + ind(flat))
+            extra = [f"attr{u['i']} = 1"] if r.random() < 0.3 else []
+            return ("class", u["cls"], extra, ["@staticmethod", f"def {u['meth']}({render_sig(u['sig'])}):"] + ind(flat))
         raise AssertionError(k)
 
     def project(self):
@@ -866,8 +1366,27 @@ class ProjGen:
         self.layout()
         us = self.build_units()
         chunks = {m: [] for m in range(len(self.mods))}
+        classes = {}
         for u in us:
-            chunks[u["mod"]].append(self.unit_source(u))
+            src = self.unit_source(u)
+            if isinstance(src, tuple):
+                _, cls, attrs, member = src
+                key = (u["mod"], cls) if not u.get("shared") else (u["mod"], cls, u["i"])
+                if key not in classes:
+                    classes[key] = {"attrs": [], "members": []}
+                    chunks[u["mod"]].append(classes[key])
+                classes[key]["attrs"] += attrs
+                classes[key]["members"].append(member)
+                classes[key]["name"] = cls
+            else:
+                chunks[u["mod"]].append(src)
+        for mi in chunks:
+            for j, c in enumerate(chunks[mi]):
+                if isinstance(c, dict):
+                    # members in any order: a static method is resolvable from its own body and from every body analysed
+                    # later (the initialiser is analysed first wherever it stands)
+                    r.shuffle(c["members"])
+                    chunks[mi][j] = [f"class {c['name']}:"] + ind(c["attrs"]) + [l for mem in c["members"] for l in ind(mem)]
         files = {}
         for mi, m in enumerate(self.mods):
             cs = chunks[mi]
@@ -883,25 +1402,29 @@ class ProjGen:
         return files, self.mods[0]["rel"]
 
 
-def gen_project(rng, mode):
+def gen_project(rng, mode, n_modules=None):
     for attempt in range(400):
         if attempt == 300:
             mode = "tree"       # never reached in practice; the check must not die on an unlucky stream
-        g = ProjGen(rng, mode)
+        g = ProjGen(rng, mode, n_modules=n_modules)
         files, target = g.project()
         try:
             for rel, src in files.items():
-                ast.parse(src)
+                compile(src, rel, "exec", dont_inherit=True)        # also: `await` / `yield` / `return` placement rules
             proj = Project(files, target)
         except (OutsideGrammar, SyntaxError):
             continue
+        if mode not in ("wild", "cycle") and proj.forward_static:
+            continue        # a static method called from a body analysed before it is registered (unresolvable: C08's row)
         if mode != "wild":
             # the fragment is asserted syntactically on the generated text (never on any output)
             feats = set()
             for m in proj.mods.values():
                 for u in m.units.values():
                     feats |= proj.features(u)
-            if feats:
+            if feats - ({"cycle"} if mode == "cycle" else set()):
+                continue
+            if mode == "cycle" and "cycle" not in feats:
                 continue
             if mode == "depth1" and any(s.unit is not None and any(t.unit is not None for t in s.unit.sites)
                                         for m in proj.mods.values() for u in m.units.values() for s in u.sites):
@@ -1096,6 +1619,36 @@ CURATED = [
         "beta.py": "def _normalise(rec):\n    return rec.beta_field\ndef load_beta(src):\n    return _normalise(src)\n",
         "target.py": "from alpha import load_alpha\nfrom beta import load_beta\ndef both(a, b):\n    return load_alpha(a), load_beta(b)\n",
     }, "target.py"),
+    # ---- round 3
+    ("keyword-named-like-positional-only-parameter", {
+        "sink.py": "def emit(rec, /, *parts, **meta):\n    rec.sent = 1\n    return parts.n, meta.level\n"
+                   "def relay(r, other):\n    return emit(r, other, rec=other.tag, parts=r, meta=other)\n",
+        "target.py": "from sink import relay\ndef log(msg, /, **extra):\n    msg.text = 1\n    return extra.where\n"
+                     "def mid(m, o):\n    return log(m, msg=o)\ndef top(a, b):\n    mid(a, b)\n    return relay(b, a)\n",
+    }, "target.py"),
+    ("recursion-of-every-kind-of-callable", {
+        "target.py": "class Acct:\n    def __init__(self, lo, hi):\n        self.low = lo.v\n        twin = Acct(hi, lo)\n"
+                     "    @staticmethod\n    def settle(debit, credit):\n        debit.balance = credit.limit\n        return Acct.settle(credit, debit)\n"
+                     "    @staticmethod\n    def ping(a, b):\n        del a.pinged\n        return bounce(b, a)\n"
+                     "def bounce(x, y):\n    x.bounced\n    return Acct.ping(y, y)\n"
+                     "flip = lambda e, f: (e.le, flip(f, e))\n"
+                     "def even(n, acc):\n    n.ev\n    return odd(acc, n)\ndef odd(m, acc2):\n    m.od = 1\n    return even(acc2, m)\n"
+                     "def run(p, q):\n    Acct.settle(p, q)\n    flip(q, p)\n    k = Acct(p, q)\n    return even(p, q), bounce(q, p)\n",
+    }, "target.py"),
+    ("calls-in-every-position", {
+        "lib.py": "def ok(h):\n    h.seen = 1\n    return h.flag\ndef val(g):\n    return g.val\n",
+        "target.py": "import lib\nfrom lib import ok\n"
+                     "def dispatch(msg, ctx):\n    match lib.val(msg):\n        case 1 if ok(ctx):\n            return ctx.reply\n"
+                     "        case [mc_a, *mc_b] if msg.g and lib.val(ctx):\n            pass\n        case _:\n            return ctx.error\n"
+                     "async def flow(p, q):\n    if ok(p):\n        pass\n    elif lib.val(q):\n        q.e\n    while ok(q):\n        break\n"
+                     "    for it in lib.val(p):\n        pass\n    with ok(p) as w, lib.val(q):\n        pass\n"
+                     "    [1 for e in q.seq if ok(p)]\n    {e2: lib.val(p) for e2 in q.seq2}\n    (lambda: ok(q))\n    f\"{ok(p)!r:>{q.width}}\"\n"
+                     "    assert ok(p), lib.val(q)\n    r = await lib.val(p)\n    async for it2 in ok(q):\n        pass\n"
+                     "    try:\n        pass\n    except ok(p):\n        lib.val(q)\n    finally:\n        ok(q)\n"
+                     "    not ok(p) and lib.val(q) < 3\n    raise ok(p) from lib.val(q)\n"
+                     "def gen(p):\n    y = yield ok(p)\n    yield from lib.val(p)\n    return ok(p) if p.t else lib.val(p)\n"
+                     "def route(m, c):\n    return dispatch(m, c)\n",
+    }, "target.py"),
     ("chain-through-three-modules", {
         "m1.py": "from m2 import step2\ndef step1(a1):\n    a1.one\n    step2(a1)\n",
         "m2.py": "import m3\ndef step2(a2):\n    a2.two = 1\n    m3.step3(a2)\n",
@@ -1111,6 +1664,9 @@ KNOWN_WITNESSES = [
         "pk/__init__.py": "",
         "pk/shapes.py": "class Point:\n    def __init__(self, src):\n        self.x = src.value\ndef attach(holder, a):\n    holder.pt = Point(a)\n",
         "target.py": "from pk import shapes\ndef use(h, a):\n    shapes.attach(h, a)\n",
+    }, "target.py"),
+    ("known:call-in-subscript-index", {
+        "target.py": "def helper(h):\n    h.hx = 1\n    return h.hy\ndef f(p, q):\n    del q.d[helper(p.dl)]\n",
     }, "target.py"),
     ("known:imported-class", {
         "shapes.py": "class Point:\n    def __init__(self, src):\n        self.x = src.value\n",
@@ -1180,7 +1736,7 @@ def run_project_stage(res, rng, n, model=None, cli_sample=6, modes=("tree", "tre
         for c in cases:
             proj, files, target, label = c.proj, c.files, c.target, c.label
             res.evaluations += 1
-            mode = next((m for m in ("depth1", "tree", "wild") if label.startswith(m)), "other")
+            mode = next((m for m in ("depth1", "tree", "cycle", "wild") if label.startswith(m)), "other")
             res.count(f"project:mode:{'curated' if c.curated else mode}")
             res.count(f"project:files:{len(proj.mods)}")
             n_edges = sum(1 for m in proj.mods.values() for u in m.units.values() for s in u.sites if s.unit is not None)
